@@ -569,3 +569,67 @@ Qed.
 
 Lemma simplify_func_prefix (f : string) : has_prefix (simplify_func f) (trim_prefix "." f) = true.
 Proof. apply simp_scan_prefix. Qed.
+
+(* ================================================================ cut_root is the relational drop rule *)
+Section CutRootRule.
+  Context {A : Type}.
+  Variable m : A -> bool.
+
+  Definition cutpt (found : bool) (fs : list A) (k : nat) : Prop :=
+    (exists f, nth_error fs k = Some f /\ m f = true) /\
+    (found = true \/ exists j g, (j < k)%nat /\ nth_error fs j = Some g /\ m g = false).
+
+  Lemma cutpt_false_is_cut_point fs k : cutpt false fs k <-> cut_point m fs k.
+  Proof.
+    unfold cutpt, cut_point. split; intros [H1 H2]; (split; [exact H1|]).
+    - destruct H2 as [H2|H2]; [discriminate|exact H2].
+    - now right.
+  Qed.
+
+  Lemma cut_root_rule_gen (fs : list A) (found : bool) :
+    (exists k, cutpt found fs k /\ (forall j, (j < k)%nat -> ~ cutpt found fs j) /\ cut_root m found fs = firstn k fs)
+    \/ ((forall k, ~ cutpt found fs k) /\ cut_root m found fs = fs).
+  Proof.
+    revert found. induction fs as [|f r IH]; intros found.
+    - right. split; [|reflexivity]. intros k [[x [H _]] _]. destruct k; discriminate.
+    - cbn [cut_root]. destruct (m f) eqn:Ef.
+      + destruct found.
+        * left. exists 0%nat. split; [|split; [intros j Hj; lia|reflexivity]].
+          split; [exists f; now split|now left].
+        * assert (Hshift : forall k, cutpt false (f :: r) (S k) <-> cutpt false r k).
+          { intros k. unfold cutpt. cbn [nth_error]. split; intros [H1 H2]; (split; [exact H1|]); right.
+            - destruct H2 as [H2|[j [g [Hj [Hn Hg]]]]]; [discriminate|].
+              destruct j as [|j]; [cbn in Hn; injection Hn as <-; congruence|].
+              exists j, g. cbn in Hn. repeat split; [lia|exact Hn|exact Hg].
+            - destruct H2 as [H2|[j [g [Hj [Hn Hg]]]]]; [discriminate|].
+              exists (S j), g. repeat split; [lia|exact Hn|exact Hg]. }
+          assert (H0 : ~ cutpt false (f :: r) 0).
+          { intros [_ [H|[j [g [Hj _]]]]]; [discriminate|lia]. }
+          destruct (IH false) as [[k [Hk [Hmin Hres]]]|[Hno Hres]].
+          -- left. exists (S k). split; [now apply Hshift|]. split.
+             ++ intros j Hj. destruct j as [|j]; [exact H0|]. rewrite Hshift. apply Hmin. lia.
+             ++ cbn [firstn]. now rewrite Hres.
+          -- right. split; [|now rewrite Hres]. intros k. destruct k as [|k]; [exact H0|].
+             rewrite Hshift. apply Hno.
+      + assert (Hshift : forall k, cutpt found (f :: r) (S k) <-> cutpt true r k).
+        { intros k. unfold cutpt. cbn [nth_error]. split; intros [H1 _]; (split; [exact H1|]).
+          - now left.
+          - right. exists 0%nat, f. repeat split; [lia|exact Ef]. }
+        assert (H0 : ~ cutpt found (f :: r) 0).
+        { intros [[x [Hx Hm]] _]. cbn in Hx. injection Hx as <-. congruence. }
+        destruct (IH true) as [[k [Hk [Hmin Hres]]]|[Hno Hres]].
+        * left. exists (S k). split; [now apply Hshift|]. split.
+          -- intros j Hj. destruct j as [|j]; [exact H0|]. rewrite Hshift. apply Hmin. lia.
+          -- cbn [firstn]. now rewrite Hres.
+        * right. split; [|now rewrite Hres]. intros k. destruct k as [|k]; [exact H0|].
+          rewrite Hshift. apply Hno.
+  Qed.
+
+  Lemma cut_root_drop_rule (fs : list A) : drop_rule m fs (cut_root m false fs).
+  Proof.
+    unfold drop_rule. destruct (cut_root_rule_gen fs false) as [[k [Hk [Hmin Hres]]]|[Hno Hres]].
+    - left. exists k. split; [now apply cutpt_false_is_cut_point|]. split; [|exact Hres].
+      intros j Hj Hc. apply (Hmin j Hj). now apply cutpt_false_is_cut_point.
+    - right. split; [|exact Hres]. intros k Hc. apply (Hno k). now apply cutpt_false_is_cut_point.
+  Qed.
+End CutRootRule.
